@@ -188,16 +188,16 @@ Qed.
 Print Assumptions numd_member_digits.
 
 (* ------------------------------------------------------------------ the time-stamp namings *)
-(* the pattern of the time-stamp namings: <fixed>_ <what chrono reads as r%Y-%m-%d_%H-%M-%S> [.restart-NNNN] [.suffix] [.gz] *)
+(* the pattern of the time-stamp namings: <fixed>_ <a time stamp r%Y-%m-%d_%H-%M-%S: read by chrono AND exactly the text the format writes for it> [.restart-NNNN] [.suffix] [.gz] *)
 Definition ts_pattern (c : config) (n : bytes) : Prop :=
-  exists i rs gz, parse_ts_local std_fmt i <> None /\ no_dot i /\ restart_part rs /\ (gz = [] \/ gz = dot_gz)
+  exists i rs gz, canonical_ts std_fmt i = true /\ no_dot i /\ restart_part rs /\ (gz = [] \/ gz = dot_gz)
     /\ n = under (fixed0 c) ++ i ++ rs ++ sfxs (c_spec c) ++ gz.
 
-Lemma ts_filter_iff off i : filter_infix off (IFTs std_fmt) i = true <-> parse_ts_local std_fmt i <> None.
-Proof. cbn [filter_infix]. destruct (parse_ts_local std_fmt i); split; intros H; congruence. Qed.
+Lemma ts_filter_iff off i : filter_infix off (IFTs std_fmt) i = true <-> canonical_ts std_fmt i = true.
+Proof. cbn [filter_infix]. split; intros H; exact H. Qed.
 
 Lemma fam_q_plain_iff c n : fam_q c (fsfx (c_spec c)) n = true <->
-  exists i rs, parse_ts_local std_fmt i <> None /\ no_dot i /\ restart_part rs
+  exists i rs, canonical_ts std_fmt i = true /\ no_dot i /\ restart_part rs
                /\ n = under (fixed0 c) ++ i ++ rs ++ sfxs (c_spec c).
 Proof.
   rewrite (fam_q_qf c _ _ 0%Z), qf_plain_spec. split.
@@ -310,7 +310,7 @@ Proof.
   rewrite upto_dot_infix in E;
     [|apply digits_no_dot; exact Hd | apply pattern_tail_dot; [exact Hrs | apply sfxs_shape | destruct Hgz as [->|[-> _]]; auto]].
   rewrite upto_dot_infix in E; [|exact Hnd | apply pattern_tail_dot; [exact Hrs' | apply sfxs_shape | exact Hgz']].
-  subst i. apply Hp. apply parse_number_infix. exact Hd.
+  subst i. unfold canonical_ts in Hp. rewrite (parse_number_infix ds Hd) in Hp. discriminate.
 Qed.
 
 Lemma cname_not_num_pattern c : ~ num_pattern c (cname c).
@@ -329,7 +329,7 @@ Proof.
     [|intros I; vm_compute in I; intuition discriminate
      |apply pattern_tail_dot; [left; reflexivity | apply sfxs_shape | left; reflexivity]].
   rewrite upto_dot_infix in E; [|exact Hnd | apply pattern_tail_dot; [exact Hrs | apply sfxs_shape | exact Hgz]].
-  subst i. apply Hp. vm_compute. reflexivity.
+  subst i. vm_compute in Hp. discriminate.
 Qed.
 
 (* the files of a number naming (rCURRENT aside, which Timestamps naming uses, too) are foreign for a logger with a
@@ -394,9 +394,10 @@ Proof. apply tsd_member_iff. vm_compute. reflexivity. Qed.
      too short), more than five digits, an index that the logger has not reached -, archives and restart siblings of
      such names, and for Numbers naming a stranger's a_rCURRENT.log (NumForeign.short_number_is_member: a_r1.log counts as
      index 1, the numbering goes on at 2);
-   - time-stamp namings: a stranger's a_r1999-01-01_00-00-00.log; what chrono's lenient parser reads as a time stamp:
-     a_r1970-1-1_0-0-0.log (no leading zeros), "a_r 1970-01-01_00-00-00.log" (white space), a_r+1970-01-01_00-00-00.log (a
-     sign), a_r2024-02-29_23-59-60.log (a leap second); for Timestamps naming a stranger's a_rCURRENT.log
+   - time-stamp namings: a stranger's a_r1999-01-01_00-00-00.log and a_r2024-02-29_23-59-60.log (a leap second, which
+     the format writes like this). What only chrono's lenient parser reads as a time stamp is FOREIGN since the repair of the
+     time-stamp filter: a_r1970-1-1_0-0-0.log (no leading zeros), "a_r 1970-01-01_00-00-00.log" (white space),
+     a_r+1970-01-01_00-00-00.log (a sign); for Timestamps naming a stranger's a_rCURRENT.log
      (TsdForeign.member_files_td, TsForeign.member_files_t: what the model does with them).
    This is legitimate: property C14 is about names that do NOT follow the logger's pattern. *)
 Example still_members :
@@ -407,7 +408,7 @@ Example still_members :
   /\ List.map (tsd_member extd_c) [bs "a_r1999-01-01_00-00-00.log"; bs "a_r1970-1-1_0-0-0.log";
                                    bs "a_r 1970-01-01_00-00-00.log"; bs "a_r+1970-01-01_00-00-00.log";
                                    bs "a_r2024-02-29_23-59-60.log"; bs "a_r1999-01-01_00-00-00.restart-0000.log.gz"]
-     = [true; true; true; true; true; true]
+     = [true; false; false; false; true; true]
   /\ ts_member extf_c (bs "a_rCURRENT.log") = true /\ tsd_member extd_c (bs "a_rCURRENT.log") = false
   (* no date: 2023 was no leap year, there is no month 13 *)
   /\ tsd_member extd_c (bs "a_r2023-02-29_23-59-58.log") = false /\ tsd_member extd_c (bs "a_r2023-13-01_00-00-00.log") = false.
